@@ -287,11 +287,12 @@ Definition intro_candidates (n : node) (src : addr) : list peer :=
   | Some other => filter (fun q => negb (p_key q =? p_key other)) (n_peers n)
   | None => n_peers n
   end.
-Definition pick (n : node) (l : list peer) : option peer :=
+Definition pick_sel (sel : Z) (l : list peer) : option peer :=
   match l with
   | [] => None
-  | _ => nth_error l (Z.to_nat (n_sel n mod Z.of_nat (length l)))
+  | _ => nth_error l (Z.to_nat (sel mod Z.of_nat (length l)))
   end.
+Definition pick (n : node) (l : list peer) : option peer := pick_sel (n_sel n) l.
 Definition intro_fields (n : node) (c : peer) : addr * addr :=
   if fst (p_v4 c) =? fst (n_lan n)                (* address_is_lan: one of this machine's own addresses *)
   then (p_v4 c, (fst (n_wan n), snd (p_v4 c)))
